@@ -752,7 +752,7 @@ func Prop() *core.Prop {
 	return &core.Prop{
 		ID:    "C04",
 		Level: core.FaultEnumeration,
-		Rule:  "for each handshake (plain c2s initiator, SASL PLAIN + bind on a Secure connection, WebSocket framing, component handshake, handshakes with a failing voluntary / mandatory custom feature; initiator and receiver where the library supports the role; thorough adds STARTTLS+SASL+bind over real crypto/tls) a golden run is recorded on a bufconn connection and every fault point is replayed: peer stream ends after k bytes (all k < R), write side breaks after k bytes (all k < W), k-th Read fails, k-th Write fails, context cancelled just before the k-th connection operation against a silent and against a live peer, context cancelled while the k-th blocking read is parked. Case index = (handshake, fault kind, k) with fixed per-handshake bounds checked against the golden run; indexes beyond the golden run re-run the handshake fault-free. distinct = fault points executed.",
+		Rule:  "for each handshake (plain c2s initiator, SASL PLAIN + bind on a Secure connection, WebSocket framing, component handshake, handshakes with a failing voluntary / mandatory custom feature (failing in Negotiate), receiver handshakes in which the first / middle / last feature's List callback fails before or after writing part of its element, initiator handshakes in which the first / middle / last advertised feature's Parse callback fails before or after consuming its element (TCP and WebSocket framing); initiator and receiver where the library supports the role; thorough adds STARTTLS+SASL+bind over real crypto/tls) a golden run is recorded on a bufconn connection and every fault point is replayed: peer stream ends after k bytes (all k < R), write side breaks after k bytes (all k < W), k-th Read fails, k-th Write fails, context cancelled just before the k-th connection operation against a silent and against a live peer, context cancelled while the k-th blocking read is parked. Case index = (handshake, fault kind, k) with fixed per-handshake bounds checked against the golden run; indexes beyond the golden run re-run the handshake fault-free. distinct = fault points executed.",
 		Assumptions: []string{
 			"a scripted peer that is asked for input before it has received a complete request ends its stream (in a single-threaded negotiation nothing more can arrive; a real peer would time out and hang up)",
 			"'outlives the cancellation' is decided logically: cancellation issued, the library's context-watcher goroutine finished, the constructor parked in a bufconn read with no deadline armed and a silent peer (sampled three times) — never by a timeout",
